@@ -156,14 +156,14 @@ func serveMuxPatterns(rootPath string) []string {
 }
 
 func (c *Container) Remove(ws *WebService) error {
+	simLock("Container.Remove", &c.webServicesLock, true)
+	c.webServicesLock.Lock()
+	defer c.webServicesLock.Unlock()
 	if c.ServeMux == http.DefaultServeMux {
 		errMsg := fmt.Sprintf("cannot remove a WebService from a Container using the DefaultServeMux: ['%v']", ws)
 		log.Print(errMsg)
 		return errors.New(errMsg)
 	}
-	simLock("Container.Remove", &c.webServicesLock, true)
-	c.webServicesLock.Lock()
-	defer c.webServicesLock.Unlock()
 	// build a new ServeMux and re-register all WebServices
 	newServeMux := http.NewServeMux()
 	newServices := []*WebService{}
